@@ -58,7 +58,7 @@ where
     if hash_of(l) != hash_of(&r) {
         return Err(format!("{}: Hash differs from from_slice of the same bases", what));
     }
-    if format!("{:?}", l) != to_ascii(model) {
+    if !format!("{:?}", l).contains(&to_ascii(model)) {
         return Err(format!("{}: Debug form {:?} != {}", what, l, to_ascii(model)));
     }
     Ok(())
